@@ -1114,7 +1114,15 @@ func (a *Analysis) spuriousRejections(paths []*Path) []string {
 				// need > Len() refuses only truncated input if the reads that follow on the success paths really consume at
 				// least `need` bytes: a guard asking for more (n+1 for an n-byte text, 29 for a 28-byte record) refuses a
 				// complete value that ends the input
-				if o.Op == "buflen" {
+				generic := last.V.Contains(func(x *Val) bool {
+					if x.Type == nil {
+						return false
+					}
+					_, isTP := x.Type.(*types.TypeParam)
+					return isTP
+				})
+				// (in a generic body the prefix has a symbolic type: its instantiations, all analysed, decide)
+				if o.Op == "buflen" && !generic {
 					if need := affOf(last.V.Args[1-side]); !need.Top {
 						short := false
 						for _, got := range consumedAfter(o.ID) {
